@@ -13,6 +13,7 @@ import (
 	"os"
 	"reflect"
 	"runtime"
+	"sort"
 	"strconv"
 	"strings"
 	"sync"
@@ -56,7 +57,7 @@ type Summary struct {
 
 func seqScript(c SeqCase) string {
 	var b strings.Builder
-	fmt.Fprintf(&b, "c = make(chan int64, %d)\nr = []\nv = 77\nok = nil\n", c.Cap)
+	fmt.Fprintf(&b, "c = make(chan int64, %d)\nd = make(chan int64, 16)\nr = []\nv = 77\nok = nil\n", c.Cap)
 	for _, o := range c.Ops {
 		switch o {
 		case "s1", "s2":
@@ -67,6 +68,10 @@ func seqScript(c SeqCase) string {
 			b.WriteString("x = (<-c)\nr += [[\"recv\", x]]\n")
 		case "rk":
 			b.WriteString("v, ok = <-c\nr += [[\"recvok\", v, ok]]\n")
+		case "rl":
+			b.WriteString("d <- c\nr += \"relay\"\n")
+		case "dl":
+			b.WriteString("r += [[\"dlen\", len(d)]]\n")
 		}
 	}
 	b.WriteString("return r\n")
@@ -97,6 +102,10 @@ func seqExpected(c SeqCase) []interface{} {
 			}
 		case "recvok":
 			out = append(out, []interface{}{"recvok", int64(o.A), o.B == 1})
+		case "relay":
+			out = append(out, "relay")
+		case "dlen":
+			out = append(out, []interface{}{"dlen", int64(o.A)})
 		}
 	}
 	return out
@@ -184,7 +193,26 @@ type PipeCfg struct {
 	Shape    string `json:"shape"`  // how the shared stage function takes its arguments: "" (3 parameters) | "fn5" (5 parameters) | "fnvar" (variadic)
 }
 
+// fanScript: NS workers range over one shared input channel (spec/AnkoChanFan.tla)
+func fanScript(c PipeCfg) string {
+	var b strings.Builder
+	items := make([]string, len(c.Items))
+	for i, v := range c.Items {
+		items[i] = strconv.Itoa(v)
+	}
+	fmt.Fprintf(&b, "cin = make(chan %s, %d)\ncout = make(chan %s, %d)\ndone = make(chan int64, %d)\n", c.Elem, c.Cap, c.Elem, c.Cap, c.NS)
+	b.WriteString("worker = func() {\n for v in cin {\n  cout <- v + 10\n }\n done <- 1\n}\n")
+	fmt.Fprintf(&b, "for i = 0; i < %d; i++ {\n go worker()\n}\n", c.NS)
+	fmt.Fprintf(&b, "go func() {\n for v in [%s] {\n  cin <- v\n }\n close(cin)\n}()\n", strings.Join(items, ", "))
+	fmt.Fprintf(&b, "go func() {\n for i = 0; i < %d; i++ {\n  <-done\n }\n close(cout)\n}()\n", c.NS)
+	b.WriteString("res = []\nfor v in cout {\n res += v\n}\nreturn res\n")
+	return b.String()
+}
+
 func pipeScript(c PipeCfg) string {
+	if c.Shape == "fan" {
+		return fanScript(c)
+	}
 	var b strings.Builder
 	for k := 0; k <= c.NS; k++ {
 		fmt.Fprintf(&b, "c%d = make(chan %s, %d)\n", k, c.Elem, c.Cap)
@@ -309,6 +337,8 @@ func pipe(in, out string, reps int, seed int64) {
 				what = "pipeline did not finish within 15 s (deadlock or lost message)"
 			case err != nil:
 				what = "pipeline failed: " + err.Error()
+			case c.Shape == "fan" && sameBag(got, exp):
+				// several workers: any order, but every item exactly once
 			case !reflect.DeepEqual(norm(got), norm(exp)) || fmt.Sprintf("%T", firstOf(got)) != fmt.Sprintf("%T", firstOf(exp)):
 				what = "collected sequence"
 			default:
@@ -338,6 +368,21 @@ func pipe(in, out string, reps int, seed int64) {
 	runtime.GOMAXPROCS(runtime.NumCPU())
 	b, _ := json.Marshal(sum)
 	os.WriteFile(out, b, 0o644)
+}
+
+func sameBag(got interface{}, exp []interface{}) bool {
+	l, ok := got.([]interface{})
+	if !ok || len(l) != len(exp) {
+		return false
+	}
+	a, b := []string{}, []string{}
+	for i := range l {
+		a = append(a, fmt.Sprintf("%T:%v", l[i], l[i]))
+		b = append(b, fmt.Sprintf("%T:%v", exp[i], exp[i]))
+	}
+	sort.Strings(a)
+	sort.Strings(b)
+	return reflect.DeepEqual(a, b)
 }
 
 func firstOf(x interface{}) interface{} {
